@@ -174,3 +174,14 @@ Proof.
   revert c. induction ops as [|o r IH]; intros c H Hok; [exact H|].
   inversion Hok; subst. unfold crun; cbn [fold_left]. apply IH; [now apply cstep_wf|assumption].
 Qed.
+
+(* 9. the property setter  cache.archive = a : the new archive is attached, the memory is untouched, and
+      whatever was parked (archiving switched off) takes the place of the archive it had replaced *)
+Lemma set_archive_law c a :
+  mem (c_set_archive c a) = mem c /\ arch (c_set_archive c a) = a /\
+  swp (c_set_archive c a) = (if is_null (swp c) then swp c else arch c).
+Proof. destruct c as [m0 a0 s0]. unfold c_set_archive. destruct s0; cbn; auto. Qed.
+
+Lemma set_archive_when_on c a : is_null (swp c) = true -> c_set_archive c a = mkC (mem c) a (swp c).
+Proof. unfold c_set_archive. intros H. rewrite H. reflexivity. Qed.
+
